@@ -707,8 +707,28 @@ def r9(R):
                     'which gets no invalidations' % (
                         name, ast.unparse(v)[:40],
                         '.'.join(str(x) for x in op.path)))
-    R.require(n >= 2, 'ObjectReader no longer builds readers for '
-              'cross-database references')
+    # ... and never through the cache of the REFERENCING connection: the
+    # same oid names different objects in different databases
+    m = 0
+    for name, f in sorted(cls.methods.items()):
+        if 'database_name' not in f.params:
+            continue
+        m += 1
+        R.instance('ObjectReader.%s resolves in database_name' % name)
+        for x in walk_local(f.node):
+            if isinstance(x, ast.Attribute) and dotted(x) == ('self',
+                                                              '_cache'):
+                R.violation(
+                    (f.module.relpath, f.qualname,
+                     'self._cache used for another database', x.lineno),
+                    'ObjectReader.%s looks an object of database '
+                    '`database_name` up in the cache of the referencing '
+                    'connection: an object of THIS database that happens to '
+                    'have the same oid is returned instead (wrong database, '
+                    'wrong class), silently' % name,
+                    key='own cache probed for a cross-database reference')
+    R.require(n + m >= 2, 'ObjectReader no longer resolves cross-database '
+              'references')
 
 
 # ------------------------------------------------------------------ C14.R10
